@@ -331,6 +331,13 @@ class EList(ECollection, list):
 
         else:
             self.check(y)
+            previous = list.__getitem__(self, i)
+            if self.is_ref and previous is not y:
+                self._update_container(None, previous_value=previous)
+                self._update_opposite(previous, self.owner, remove=True)
+            self.owner.notify(Notification(old=previous,
+                                           feature=self.feature,
+                                           kind=Kind.REMOVE))
             if self.is_ref:
                 self._update_container(y)
                 self._update_opposite(y, self.owner)
